@@ -430,7 +430,7 @@ fn fam_dict(t: &mut Tracer, rng: &mut Rng, cx: &Ctx) {
     let huge = cx.thorough && rng.chance(1, 12);
     let np = if huge { rng.range(1600, 2200) } else if cx.thorough { rng.range(200, 600) } else { rng.range(80, 220) };
     // huge: more than 16 blocks, so that blocks are closed under the default num_free_blocks
-    let nfb = if huge { 16 } else { *rng.pick(&[1u32, 1, 2, 3, 16, 16]) };
+    let nfb = if huge { 16 } else { *rng.pick(&[1u32, 1, 2, 3, 5, 6, 7, 16, 16]) };
     let var = if huge { Var::B } else { var };
     dict_typed::<u32>(t, rng, cx, var, kind, np, nfb);
 }
@@ -485,6 +485,81 @@ fn fam_wide(t: &mut Tracer, rng: &mut Rng, cx: &Ctx) {
         }
     }
     let mut pats: Vec<Pat> = vec![];
+    if rng.chance(if matches!(cx.prop, "C03" | "C04") { 1 } else { 1 }, if matches!(cx.prop, "C03" | "C04") { 2 } else { 3 }) {
+        // a wide state DEEP in the trie: a stem of 3-5 labels over a tiny pool (so that its proper suffixes are
+        // prefixes or whole patterns themselves: fail chains of several hops, some ending in a pattern end) with
+        // 12+ children, as dictionaries with one-letter words and long common stems have
+        let pool: Vec<u32> = {
+            let mut p: Vec<u32> = (0..universe).collect();
+            rng.shuffle(&mut p);
+            p.truncate(rng.range(2, 4));
+            p
+        };
+        let n = rng.range(3, 5);
+        let w: Pat = (0..n).map(|_| base + *rng.pick(&pool)).collect();
+        let nk = rng.range(12, 40);
+        let mut ks: Vec<u32> = (0..universe).collect();
+        rng.shuffle(&mut ks);
+        ks.truncate(nk);
+        for &x in &ks {
+            let mut p = w.clone();
+            p.push(base + x);
+            for _ in 0..rng.below(3) {
+                p.push(base + *rng.pick(&pool));
+            }
+            pats.push(p);
+        }
+        // half of the time for sure: a longer proper suffix that is only a prefix of some pattern, and a shorter
+        // one that is a whole pattern (the fail chain of the stem reaches a pattern end after two hops or more)
+        let forced = if rng.chance(1, 2) {
+            let i1 = rng.range(1, n - 2);
+            let i2 = rng.range(i1 + 1, n - 1);
+            Some((i1, i2))
+        } else {
+            None
+        };
+        for i in 1..n {
+            let choice = match forced {
+                Some((i1, _)) if i == i1 => 1,
+                Some((_, i2)) if i == i2 => 0,
+                _ => rng.below(3),
+            };
+            match choice {
+                0 => pats.push(w[i..].to_vec()),
+                1 => {
+                    let mut p = w[i..].to_vec();
+                    for _ in 0..rng.range(1, 2) {
+                        p.push(base + *rng.pick(&pool));
+                    }
+                    pats.push(p);
+                }
+                _ => {}
+            }
+        }
+        for _ in 0..rng.range(0, 3) {
+            pats.push(vec![base + *rng.pick(&ks)]);
+        }
+        let mut seen: Vec<Pat> = vec![];
+        pats.retain(|p| {
+            if seen.contains(p) {
+                false
+            } else {
+                seen.push(p.clone());
+                true
+            }
+        });
+        rng.shuffle(&mut pats);
+        let kind = *rng.pick(&kinds_for(cx.prop));
+        let alpha = Alpha {
+            pat: pool.iter().map(|&p| base + p).chain(ks.iter().take(5).map(|&x| base + x)).collect(),
+            extra: vec![base + universe + 1],
+        };
+        let hays: Vec<Rc<Vec<u8>>> = (0..3).map(|_| Rc::new(gen_haystack(rng, var, &alpha, 30, &pats))).collect();
+        let nfb = *rng.pick(&[1u32, 2, 3, 16]);
+        let spec = BuildSpec { var, kind, entry: "new", via_builder: true, nfb, pats };
+        run_block::<u32>(t, rng, cx, &spec, &[], &hays, &[], false);
+        return;
+    }
     if rng.chance(1, 2) {
         pats.push(vec![base]); // the single label 0x00 / first character
     }
@@ -544,7 +619,7 @@ fn fam_wide(t: &mut Tracer, rng: &mut Rng, cx: &Ctx) {
         extra: vec![base + universe + 1],
     };
     let hays: Vec<Rc<Vec<u8>>> = (0..3).map(|_| Rc::new(gen_haystack(rng, var, &alpha, 40, &pats[..pats.len().min(40)]))).collect();
-    let mut nfbs: Vec<u32> = if cx.prop == "C11" { if cx.thorough { vec![16, 1, 2, 3] } else { vec![16, 2] } } else { vec![*rng.pick(&[1u32, 2, 2, 3, 4, 16])] };
+    let mut nfbs: Vec<u32> = if cx.prop == "C11" { if cx.thorough { vec![16, 1, 2, 3] } else { vec![16, 2] } } else { vec![*rng.pick(&[1u32, 2, 2, 3, 4, 5, 6, 7, 16])] };
     if cx.prop == "C11" && cx.thorough {
         nfbs.push(rng.range(4, 15) as u32);
     }
@@ -586,7 +661,34 @@ fn fam_chain(t: &mut Tracer, rng: &mut Rng, cx: &Ctx) {
             pats.push(p);
         }
     }
-    rng.shuffle(&mut pats);
+    // prefixes of the long patterns whose lengths sit next to powers of two, and extensions of those prefixes:
+    // nested long patterns (under leftmost-first the later ones are shadowed by prefixes that are themselves long)
+    if rng.chance(1, 2) {
+        let long0 = pats[0].clone();
+        for _ in 0..rng.range(1, 3) {
+            let m = *rng.pick(&[31usize, 32, 33, 63, 64, 65, 66, 100, 127, 128, 129, 200, 255, 256, 257]);
+            let m = m.min(long0.len() - 1);
+            let pre: Pat = long0[..m].to_vec();
+            if !pats.contains(&pre) {
+                pats.push(pre.clone());
+            }
+            if rng.chance(2, 3) {
+                let mut e = pre;
+                for _ in 0..rng.range(1, 2) {
+                    e.push(*rng.pick(&alpha));
+                }
+                if !pats.contains(&e) {
+                    pats.push(e);
+                }
+            }
+        }
+    }
+    // (half of the time in registration order "shorter first", which is the order that shadows)
+    if rng.chance(1, 2) {
+        rng.shuffle(&mut pats);
+    } else {
+        pats.sort_by_key(|p| p.len());
+    }
     let kind = *rng.pick(&kinds_for(cx.prop));
     let nfb = if cx.prop == "C11" { *rng.pick(&[1u32, 2, 2, 3]) } else { *rng.pick(&[16u32, 16, 2, 3, 1, 64]) };
     let spec = BuildSpec { var, kind, entry: "new", via_builder: true, nfb, pats };
@@ -1083,10 +1185,29 @@ fn fam_shadow(t: &mut Tracer, rng: &mut Rng, cx: &Ctx) {
     let fresh_base: u32 = base_cp + 40;
     let nbase = rng.range(1, 8);
     let mut pats = gen_patterns(rng, &a, nbase, 3);
+    // now and then one of the shadowing prefixes is itself long (lengths next to powers of two)
+    if rng.chance(1, 3) {
+        let n = *rng.pick(&[15usize, 16, 17, 31, 32, 33, 63, 64, 65, 70, 127, 128, 129, 255, 256, 257, 300]);
+        let p: Pat = (0..n).map(|_| *rng.pick(&a)).collect();
+        let at = rng.below(pats.len() + 1);
+        pats.insert(at, p);
+        // a pattern is reportable only if no earlier-registered proper prefix exists: keep the long one first
+        // among those it extends, half of the time
+        if rng.chance(1, 2) {
+            let long = pats.remove(at);
+            pats.insert(0, long);
+        }
+    }
     let mut extra_chars: Vec<u32> = vec![];
     let nshadow = rng.range(1, 5);
+    let nlong = pats.iter().filter(|p| p.len() > 8).count();
     for j in 0..nshadow {
-        let src = pats[rng.below(pats.len())].clone();
+        // (the long prefix, when there is one, gets an extension for sure)
+        let src = if j == 0 && nlong > 0 {
+            pats.iter().find(|p| p.len() > 8).unwrap().clone()
+        } else {
+            pats[rng.below(pats.len())].clone()
+        };
         let mut e = src;
         for q in 0..rng.range(1, 3) {
             let c = fresh_base + (j * 3 + q) as u32;
@@ -1315,7 +1436,7 @@ pub fn family_of(prop: &str, i: u64) -> &'static str {
         "C04" | "C15" => match i % 12 {
             11 => "dict",
             4 | 0 => "wide",
-            8 => "chain",
+            8 | 3 => "chain",
             2 | 6 | 9 => "shadow",
             _ => "small",
         },
